@@ -115,7 +115,7 @@ def rand_vals(rng, n, style=None):
 
 
 # ----------------------------------------------------------------------------- DAGs
-DAG_SHAPES = ["isolated", "chain", "collider", "diamond", "family", "disconnected", "gnp", "gnp", "gnp", "tree"]
+DAG_SHAPES = ["isolated", "chain", "collider", "diamond", "family", "disconnected", "gnp", "gnp", "gnp", "tree", "triangle_parent"]
 
 
 def rand_dag_edges(rng, n, shape=None, p=None):
@@ -156,6 +156,14 @@ def rand_dag_edges(rng, n, shape=None, p=None):
                 E.add((i, i + 1))
     elif shape == "tree":
         for i in range(1, n):
+            E.add((rng.randrange(i), i))
+    elif shape == "triangle_parent" and n >= 4:
+        # B -> M -> S, B -> S and a further parent P -> M that is connected to S only through M: a reachability search has to visit M
+        # "from below" as well as "from above" (plus, for larger n, a second root into S and random extra leaves)
+        E |= {(0, 2), (1, 2), (2, 3), (0, 3)}
+        if n >= 5:
+            E.add((4, 3) if rng.random() < .5 else (4, 2))
+        for i in range(5, n):
             E.add((rng.randrange(i), i))
     elif shape == "ring" and n >= 3:
         # 0 -> 1 -> ... -> n-1 and 0 -> n-1: the moral graph has the chordless cycle 0-1-...-(n-2)-0 of length n-1
